@@ -13,7 +13,7 @@ EXTENDS DirectWriteImpl, Json, IOUtils
 
 Traces == JsonDeserialize(IOEnv.TRACE_FILE)
 VARIABLES tid, l
-tvars == <<phase, cpc, k, ack, deverr, priq, wire, replies, nhs, acked, rets, got, stale, tid, l>>
+tvars == <<phase, cpc, k, ack, deverr, priq, wire, replies, nhs, acked, rets, got, stale, listening, tid, l>>
 Ev == Traces[tid].ev[l]
 More == l <= Len(Traces[tid].ev)
 Adv == l' = l + 1 /\ UNCHANGED tid
@@ -27,7 +27,7 @@ TRel     == More /\ Ev.k = "rel" /\ replies # <<>> /\ Head(replies).t = Ev.t
 TRet     == More /\ Ev.k = "ret" /\ WriteReturn /\ rets'[Len(rets')].s = Ev.s /\ rets'[Len(rets')].res = Ev.res /\ Adv
 TDevice  == Device /\ UNCHANGED <<tid, l>>
 TEnd     == ~More /\ l = Len(Traces[tid].ev) + 1 /\ PrintT(<<"A", tid>>) /\ l' = l + 1
-            /\ UNCHANGED <<phase, cpc, k, ack, deverr, priq, wire, replies, nhs, acked, rets, got, stale, tid>>
+            /\ UNCHANGED <<phase, cpc, k, ack, deverr, priq, wire, replies, nhs, acked, rets, got, stale, listening, tid>>
 TNext == TStartup \/ TCall \/ TTx \/ TRel \/ TRet \/ TDevice \/ TEnd
 TSpec == TInit /\ [][TNext]_tvars
 =============================================================================
